@@ -6,7 +6,7 @@ import math
 
 from .model import ClassInfo, EnumMember, ExtRef, FuncInfo, ParamsValue
 from .interp_expr import SuperV, truth, as_bytes_parts
-from .trace import Effect, Inline, New, Op, Opaque, Raise
+from .trace import Effect, Inline, New, Op, Opaque, Raise, Risk
 from .values import (AttrFieldV, BytesV, ClassV, ComposerV, DictV, FieldV, FuncV, InputV, LambdaV, ListV, ModuleV,
                      ObjV, ParserV, SelfV, Sym, Unknown, ValidatorV, is_const)
 
@@ -21,7 +21,75 @@ class Raised(Exception):
     """Control signal: the evaluated call never returns (six.raise_from)."""
 
 
+_EXTERNAL = None
+
+
+def external_table():
+    global _EXTERNAL
+    if _EXTERNAL is None:
+        import json
+        import os
+        with open(os.path.join(os.path.dirname(os.path.abspath(__file__)), 'external.json')) as f:
+            _EXTERNAL = json.load(f)
+    return _EXTERNAL
+
+
+def ascii_text(v, depth=0):
+    """a str obtained by decoding input bytes as ASCII (or pieces of one): encoding it back cannot fail"""
+    if depth > 6:
+        return False
+    if isinstance(v, FieldV):
+        p = v.parser
+        return p.kind == 'text' and p.encoding == 'ascii' and v.op is not None and \
+            v.op.args.get('item_class', None) in (None,) + (ClassV(ExtRef('builtins.str')),) or \
+            (p.kind == 'text' and p.encoding == 'ascii' and v.op is not None and 'item_class' not in v.op.args and 'converter' not in v.op.args)
+    if isinstance(v, Sym):
+        if v.op in ('index', 'slice', 'elem', 'phi', 'loopacc', 'repeat', 'loopvar') and v.args:
+            return all(ascii_text(a, depth + 1) for a in v.args if not isinstance(a, (int, type(None))))
+        if v.op == 'call' and v.args and isinstance(v.args[0], Sym) and v.args[0].op == 'attr' and \
+                v.args[0].args[1] in ('split', 'strip', 'lower', 'upper', 'join', 'lstrip', 'rstrip'):
+            return ascii_text(v.args[0].args[0], depth + 1) and all(is_const(a) or ascii_text(a, depth + 1) for a in v.args[1:])
+        if v.op == 'join':
+            return is_const(v.args[0]) and ascii_text(v.args[1], depth + 1)
+        if v.op in ('six.ensure_text', 'six.ensure_str') and len(v.args) > 1 and v.args[1] == 'ascii':
+            return True
+        if v.op == 'add':
+            return all(is_const(a) or ascii_text(a, depth + 1) for a in v.args)
+    if isinstance(v, ListV):
+        return all(ascii_text(a, depth + 1) for a in v.items)
+    if isinstance(v, str):
+        return all(ord(c) < 128 for c in v)
+    return False
+
+
+def is_numeric_expr(v):
+    """certainly a number (so int()/float() cannot raise ValueError)"""
+    if isinstance(v, (int, float)) and not isinstance(v, bool):
+        return True
+    if isinstance(v, FieldV):
+        return v.op is not None and v.op.prim in ('parse_numeric', 'parse_mpint', 'parse_ssh_mpint')
+    if isinstance(v, Sym):
+        if v.op in ('add', 'sub', 'mul', 'div', 'floordiv', 'mod', 'pow', 'and', 'or', 'lshift', 'rshift', 'len', 'plen', 'ulen', 'neg'):
+            return True
+        if v.op == 'call' and v.args and (v.args[0] in ('math.log', 'time.mktime', 'calendar.timegm') or
+                                          isinstance(v.args[0], Sym) and v.args[0].op == 'attr' and
+                                          v.args[0].args[1] in ('total_seconds', 'bit_length')):
+            return True
+        if v.op in ('int', 'float', 'math.log'):
+            return True
+        if v.op == 'index' and isinstance(v.args[0], Sym) and v.args[0].op == 'call' and v.args[0].args and \
+                v.args[0].args[0] == 'struct.unpack':
+            return True
+        if v.op == 'elem' and isinstance(v.args[0], Sym) and v.args[0].op == 'range':
+            return True
+    return False
+
+
 class CallMixin:
+    def risk(self, fr, what, excs, operand=None, node=None):
+        if not fr.quiet:
+            fr.emit(Risk(what, excs, operand, node, fr.func))
+
     # -- helpers -------------------------------------------------------------------
     def parser_class(self, p):
         return self.model.cls('ParserBinary' if p.kind == 'binary' else 'ParserText')
@@ -89,6 +157,17 @@ class CallMixin:
                 recv = fv.recv
                 if isinstance(recv, (ParserV, ComposerV)) and not fv.func.name.startswith('_') \
                         and (fv.func.name.startswith('parse_') or fv.func.name.startswith('compose_')):
+                    if self.deep and fr.depth < self.max_depth + 4:
+                        # record the primitive (keys, layout) and also interpret its body for escape analysis
+                        self.primitive(recv, fv.func, args, kwargs, fr, node)
+                        sub = fr.child_env()
+                        sub.env = dict(fr.env)
+                        sub.depth = min(fr.depth, self.max_depth - 6)
+                        sub.block = fr.block
+                        sub.returns = []
+                        sub.in_primitive = True
+                        self.call_function(fv.func, recv, args, kwargs, sub, node, star)
+                        return None
                     return self.primitive(recv, fv.func, args, kwargs, fr, node)
                 return self.call_function(fv.func, recv, args, kwargs, fr, node, star)
             if isinstance(fv.func, ExtRef) and fv.func.dotted == 'attrs.__init__':
@@ -113,6 +192,10 @@ class CallMixin:
             # a method of an attribute whose class is not statically known
             base = SelfV(fv.path[:-1], None, fv.root_cls)
             return self.method_on_value(base, fv.path[-1], args, kwargs, fr, node)
+        if isinstance(fv, Sym) and fv.op == 'param':
+            self.risk(fr, 'callparam', (), fv.args[0], node)
+        if isinstance(fv, (FieldV,)) or (isinstance(fv, Sym) and fv.op in ('phi',)):
+            self.risk(fr, 'callunknown', (), fv, node)
         return Sym('call', fv, *args)
 
     def method_on_value(self, base, name, args, kwargs, fr, node):
@@ -120,7 +203,7 @@ class CallMixin:
         if isinstance(base, ListV):
             if name == 'append' and len(args) == 1:
                 base.items.append(args[0])
-                if fr.in_loop:
+                if fr.in_loop > getattr(fr, 'unrolled', 0):
                     base.complete = False
                 return None
             if name == 'insert' and len(args) == 2:
@@ -191,6 +274,19 @@ class CallMixin:
             f = base.params_class.resolve(name)
             if f is not None:
                 return self.call_function(f, ClassV(base.params_class), args, kwargs, fr, node)
+        if not is_const(base):
+            lenient = (len(args) > 1 and args[1] in ('replace', 'ignore')) or kwargs.get('errors') in ('replace', 'ignore')
+            if name == 'decode' and lenient:
+                pass
+            elif name == 'decode':
+                self.risk(fr, 'decode', ('builtins.UnicodeDecodeError',), base, node)
+            elif name == 'encode':
+                if not ascii_text(base):
+                    self.risk(fr, 'encode', ('builtins.UnicodeEncodeError',), base, node)
+            else:
+                ex = external_table()['methods'].get(name)
+                if ex and not isinstance(base, (ListV, DictV)):
+                    self.risk(fr, 'ext:.%s' % name, tuple(ex), base, node)
         # mutation of something reachable from self
         if name in MUTATORS and self.is_rooted_at_self(base):
             fr.emit(Effect('mutcall', base, (name,) + tuple(args), node, fr.func))
@@ -256,6 +352,9 @@ class CallMixin:
             return BytesV([('nested', recv)])
         if func.module.external and not (func.kind == 'classmethod' and not args and not kwargs):
             # the dependency is consulted for constants only, never interpreted as DSL code
+            mex = external_table()['methods'].get(func.name)
+            if mex:
+                self.risk(fr, 'ext:' + func.qualname, tuple(mex), args[0] if args else recv, node)
             return Sym('extcall', func.qualname, recv if recv is not None else None, *args)
         if fr.depth >= self.max_depth:
             return Unknown('inline depth')
@@ -347,6 +446,7 @@ class CallMixin:
                 for m in self.enum_iter(cinfo):
                     if self.enum_value(m) == v:
                         return m
+            self.risk(fr, 'enumconv', ('builtins.ValueError',), v, node)
             return Sym('enumconv', ClassV(cinfo), v)
         obj = ObjV(cinfo, {}, None, node)
         obj.star = list(star)
@@ -449,6 +549,10 @@ class CallMixin:
             if isinstance(a0, DictV) and a0.complete and not a0.star:
                 return len(a0.pairs)
             return Sym('len', a0)
+        if d in ('int', 'float') and args and not is_const(a0) and not is_numeric_expr(a0):
+            self.risk(fr, 'int', ('builtins.ValueError',), a0, node)
+        if d == 'next' and args:
+            self.risk(fr, 'next', ('builtins.StopIteration',), a0, node)
         if d in ('int', 'float', 'str', 'bool', 'bytes', 'ord', 'chr', 'abs') and len(args) <= 2:
             if args and all(is_const(a) for a in args) and not kwargs:
                 try:
@@ -563,6 +667,13 @@ class CallMixin:
             cause = args[1] if len(args) > 1 else None
             self.emit_raise(exc, fr, node, cause)
             raise Raised()
+        lenient = (len(args) > 2 and args[2] in ('replace', 'ignore')) or kwargs.get('errors') in ('replace', 'ignore')
+        if d in ('six.ensure_text', 'six.ensure_str') and args and not is_const(a0) and not lenient:
+            enc = args[1] if len(args) > 1 else kwargs.get('encoding', 'utf-8')
+            self.risk(fr, 'decode', ('builtins.UnicodeError',) if enc == 'idna' else ('builtins.UnicodeDecodeError',), a0, node)
+        if d == 'six.ensure_binary' and args and not is_const(a0) and not ascii_text(a0):
+            enc = args[1] if len(args) > 1 else kwargs.get('encoding', 'utf-8')
+            self.risk(fr, 'encode', ('builtins.UnicodeError',) if enc == 'idna' else ('builtins.UnicodeEncodeError',), a0, node)
         if d in ('six.ensure_text', 'six.ensure_binary', 'six.ensure_str', 'six.text_type', 'six.u', 'six.b'):
             if all(is_const(a) for a in args) and args:
                 try:
@@ -579,6 +690,13 @@ class CallMixin:
             return bytes([a0])
         if d == 'bytearray.fromhex' or d == 'bytes.fromhex':
             return Sym(d, *args)
+        ex = external_table()['raises'].get(d)
+        if ex and not all(is_const(a) for a in args):
+            self.risk(fr, 'ext:' + d, tuple(ex), a0, node)
+        if d.split('.')[-1] in external_table()['methods'] and '.' in d and ex is None:
+            mex = external_table()['methods'][d.split('.')[-1]]
+            if mex and not all(is_const(a) for a in args):
+                self.risk(fr, 'ext:' + d, tuple(mex), a0, node)
         return Sym('call', d, *args, *[('kw', k, v) for k, v in kwargs.items()])
 
     def isinstance_v(self, v, t):
